@@ -9,6 +9,7 @@ import (
 	"os"
 	"os/exec"
 	"path/filepath"
+	"runtime"
 	"strings"
 
 
@@ -19,6 +20,7 @@ import (
 	"verif/harness/explore"
 	"verif/harness/gow"
 	"verif/harness/model"
+	"verif/harness/ref"
 )
 
 // c13MapOrderFn is set by c13_map.go, which is only compiled into the map-order binary.
@@ -230,9 +232,119 @@ func goBuild(pkg string, out string, extra ...string) error {
 	return nil
 }
 
+// ---------------------------------------------------------------- (e) writer histories in one process, argument reuse
+
+var c13HistCfgs = []gow.Config{
+	{CRC: true, Chunked: true, ChunkSize: 4096, Compression: "zstd", Level: 0},
+	{CRC: true, Chunked: true, ChunkSize: 4096, Compression: "zstd", Level: 2},
+	{CRC: true, Chunked: true, ChunkSize: 4096, Compression: "zstd", Level: 3},
+	{CRC: true, Chunked: true, ChunkSize: 4096, Compression: "zstd", Level: 1},
+	{CRC: true, Chunked: true, ChunkSize: 4096, Compression: "lz4", Level: 0},
+	{CRC: true, Chunked: true, ChunkSize: 4096, Compression: ""},
+}
+
+func c13HistContent() *model.Content {
+	var ops []model.Op
+	ops = append(ops, model.Sch(model.S1), model.Chn(model.C1), model.Chn(model.C0))
+	for i := 0; i < 120; i++ {
+		ops = append(ops, model.Op{Kind: model.KMessage, M: &ref.Message{ChannelID: uint16(i % 2), Sequence: uint32(i), LogTime: uint64(i), PublishTime: uint64(i),
+			Data: bytes.Repeat([]byte(fmt.Sprintf("payload %d compressible compressible compressible ", i%7)), 6)}})
+	}
+	return model.Fixed(ref.Header{Profile: "p", Library: "my-recorder/1.2"}, ops...)
+}
+
+func hashHex(b []byte) string { h := sha256.Sum256(b); return hex.EncodeToString(h[:8]) }
+
+// c13HistRefs prints, from a fresh process, the digest of the content under each configuration.
+func c13HistRefs() []string {
+	c := c13HistContent()
+	var out []string
+	for _, cfg := range c13HistCfgs {
+		out = append(out, hashHex(gow.Write(c, cfg, nil, nil).Bytes))
+	}
+	return out
+}
+
+// writeReusing drives a writer with caller-owned argument objects that are reused between writers.
+type reusedArgs struct {
+	header   *mcap.Header
+	schemas  map[uint16]*mcap.Schema
+	channels map[uint16]*mcap.Channel
+}
+
+func writeReusing(c *model.Content, cfg gow.Config, a *reusedArgs) []byte {
+	var buf bytes.Buffer
+	w, err := mcap.NewWriter(&buf, cfg.Options())
+	if err != nil {
+		return nil
+	}
+	if a.header == nil {
+		a.header = &mcap.Header{Profile: c.Header.Profile, Library: c.Header.Library}
+		a.schemas, a.channels = map[uint16]*mcap.Schema{}, map[uint16]*mcap.Channel{}
+	}
+	_ = w.WriteHeader(a.header)
+	for _, o := range c.Ops {
+		switch o.Kind {
+		case model.KSchema:
+			if a.schemas[o.S.ID] == nil {
+				a.schemas[o.S.ID] = gow.GoSchema(o.S)
+			}
+			_ = w.WriteSchema(a.schemas[o.S.ID])
+		case model.KChannel:
+			if a.channels[o.C.ID] == nil {
+				a.channels[o.C.ID] = gow.GoChannel(o.C)
+			}
+			_ = w.WriteChannel(a.channels[o.C.ID])
+		case model.KMessage:
+			_ = w.WriteMessage(gow.GoMessage(o.M))
+		}
+	}
+	_ = w.Close()
+	return buf.Bytes()
+}
+
+func c13HistoryBody(refs []string) explore.Body {
+	c := c13HistContent()
+	return func(x *explore.Ctx) *explore.Verdict {
+		// start every history from the state of a fresh process: two collections empty every sync.Pool
+		runtime.GC()
+		runtime.GC()
+		n := 1 + x.Choose("op", 3)
+		reuse := x.Bool("arg")
+		args := &reusedArgs{}
+		var hist []string
+		var verdict *explore.Verdict
+		for i := 0; i < n; i++ {
+			k := x.Choose("op", len(c13HistCfgs))
+			cfg := c13HistCfgs[k]
+			hist = append(hist, fmt.Sprintf("%s/L%d", cfg.Compression, cfg.Level))
+			var got []byte
+			if reuse {
+				got = writeReusing(c, cfg, args)
+			} else {
+				got = gow.Write(c, cfg, nil, nil).Bytes
+			}
+			x.Ops++
+			if hashHex(got) != refs[k] && verdict == nil {
+				sig := "C13:output-depends-on-earlier-writers"
+				if reuse && i > 0 {
+					sig = "C13:output-depends-on-argument-reuse"
+				}
+				verdict = vio(sig, "writer #%d (%s) of the history %v (argument objects reused: %v) produced %s; the same calls in a fresh process give %s", i+1, hist[i], append([]string(nil), hist...), reuse, hashHex(got), refs[k])
+			}
+		}
+		x.Note = func() any { return map[string]any{"writers_in_this_process": hist, "argument_objects_reused": reuse} }
+		x.State = explore.Hash([]byte(fmt.Sprint(hist, reuse)))
+		return verdict
+	}
+}
+
 // C13: writer output is a deterministic function of options and calls.
 func C13(r *chk.Run) {
 	switch os.Getenv("VERIF_C13_CHILD") {
+	case "histrefs":
+		fmt.Println("REFS", strings.Join(c13HistRefs(), " "))
+		os.Exit(0)
 	case "digest":
 		d, err := c13child.Digest(1, 0)
 		if err != nil {
@@ -260,10 +372,13 @@ func C13(r *chk.Run) {
 		c13MapOrderFn(r)
 		return
 	}
-	r.Rule("(a) map order: a binary built with an overlay that routes every map range of go/mcap (found with go/types, regenerated from the working tree) through a harness-controlled permutation; every permutation of every map range reached by workloads with 1-4 key maps, 2-4 and 20 channels (sparse chunks), deviation bound 2; output bytes must equal the identity-order run. (b) instance interleaving: 2 [3] instances (writers with different compressions, a validating lexer) under a cooperative scheduler with yield points before every API call and at every sink write / source read / attachment-source read; all interleavings with preemption bound 2 [3]; each instance's result must equal its solo run. (c) GOMAXPROCS in {1,2,4,16}: 45 configurations x 300 messages in a fresh subprocess each, digests equal. (d) supporting: 16 free-running goroutines with independent writers/readers under -race; distinct = distinct schedules / permutation vectors")
+	r.Rule("(a) map order: a binary built with an overlay that routes every map range of go/mcap (found with go/types, regenerated from the working tree) through a harness-controlled permutation; every permutation of every map range reached by workloads with 1-4 key maps, 2-4 and 20 channels (sparse chunks), deviation bound 2; output bytes must equal the identity-order run. (b) instance interleaving: 2 [3] instances (writers with different compressions, a validating lexer) under a cooperative scheduler with yield points before every API call and at every sink write / source read / attachment-source read; all interleavings with preemption bound 2 [3]; each instance's result must equal its solo run. (c) GOMAXPROCS in {1,2,4,16}: 45 configurations x 300 messages in a fresh subprocess each, digests equal. (d) supporting: 16 free-running goroutines with independent writers/readers under -race. (e) every history of up to 3 writers (zstd at 4 levels, lz4, none) run one after another in ONE process, with and without reusing the caller's Header/Schema/Channel objects: each output must equal the digest the same calls give in a fresh process; distinct = distinct schedules / permutation vectors")
 	r.Assume("trusted: the map-range rewrite preserves semantics for any one fixed order; (d) is a different technique (dynamic race detection) used as supporting evidence only, as the cooperative scheduler's hand-offs would blind the detector")
 	if r.IsWorker() {
-		// shard workers of phase (b)
+		// shard workers of phases (b) and (e)
+		if refs := os.Getenv("VERIF_C13_REFS"); refs != "" {
+			r.Phase("writer-histories-and-argument-reuse", c13HistoryBody(strings.Fields(refs)), chk.PhaseOpts{SplitLen: 2})
+		}
 		r.Phase("instance-interleavings-2", c13Interleave(2), chk.PhaseOpts{Bound: 2, SplitLen: 4})
 		if r.Thorough() {
 			r.Phase("instance-interleavings-3", c13Interleave(3), chk.PhaseOpts{Bound: 2, SplitLen: 4})
@@ -317,6 +432,19 @@ func C13(r *chk.Run) {
 	r.Phase("instance-interleavings-2", c13Interleave(2), chk.PhaseOpts{Bound: 2, SplitLen: 4, Share: 0.5})
 	if r.Thorough() {
 		r.Phase("instance-interleavings-3", c13Interleave(3), chk.PhaseOpts{Bound: 2, SplitLen: 4, Share: 0.6})
+	}
+	// (e) histories of writers in one process, with and without reuse of the caller's argument objects
+	{
+		cmd := exec.Command(os.Args[0], "C13", r.Tier)
+		cmd.Env = append(os.Environ(), "VERIF_C13_CHILD=histrefs")
+		out, err := cmd.Output()
+		if err != nil || !strings.HasPrefix(string(out), "REFS ") {
+			r.HarnessError(fmt.Sprintf("histrefs child: %v %s", err, out))
+			return
+		}
+		refs := strings.TrimSpace(strings.TrimPrefix(string(out), "REFS "))
+		os.Setenv("VERIF_C13_REFS", refs)
+		r.Phase("writer-histories-and-argument-reuse", c13HistoryBody(strings.Fields(refs)), chk.PhaseOpts{SplitLen: 2})
 	}
 	if r.Replay != nil {
 		return
